@@ -189,6 +189,38 @@ def command_bodies(funcs, cmdname):
     return out
 
 
+DESCR_START = re.compile(r'^\s*(set (--global )?\w*descrs\[\d+\] "|\w*descriptions\[\d+\]=")')
+
+
+def logical_lines(body):
+    """Physical lines, except that a description constant holding raw line breaks (legal inside double quotes in
+    fish and zsh) is returned as one logical line."""
+    out = []
+    lines = body.split('\n')
+    i = 0
+    while i < len(lines):
+        cur = lines[i]
+        if DESCR_START.match(cur):
+            def open_(t):
+                q = t.index('"')
+                j, inside = q, False
+                while j < len(t):
+                    c = t[j]
+                    if c == '\\':
+                        j += 2
+                        continue
+                    if c == '"':
+                        inside = not inside
+                    j += 1
+                return inside
+            while open_(cur) and i + 1 < len(lines) and cur.count('\n') < 50:
+                i += 1
+                cur += '\n' + lines[i]
+        out.append(cur)
+        i += 1
+    return out
+
+
 # ---------------------------------------------------------------------------
 # zsh
 
@@ -196,7 +228,7 @@ def read_zsh_block(body, prefix, consts):
     t = new_tables()
     B = 1
     got = False
-    for line in body.split('\n'):
+    for line in logical_lines(body):
         l = line.strip()
         m = re.match(r'declare -a %sliterals=\((.*)\)$' % prefix, l)
         if m:
@@ -204,7 +236,7 @@ def read_zsh_block(body, prefix, consts):
             consts.extend(t['literals'])
             got = True
             continue
-        m = re.match(r'%sdescriptions\[(\d+)\]=(".*)$' % prefix, l)
+        m = re.match(r'%sdescriptions\[(\d+)\]=(".*)$' % prefix, l, re.S)
         if m:
             v, end = decode_dq('zsh', m.group(2), 0)
             if m.group(2)[end:].strip():
@@ -311,14 +343,14 @@ def read_fish_block(body, prefix, consts):
     cells = {}
     sub_ids = {}
     sub_tos = {}
-    for line in body.split('\n'):
+    for line in logical_lines(body):
         l = line.strip()
         m = re.match(sc + r'literals (.*)$', l)
         if m:
             t['literals'] = decode_list('fish', m.group(1))
             consts.extend(t['literals'])
             continue
-        m = re.match(sc + r'descrs\[(\d+)\] (".*)$', l)
+        m = re.match(sc + r'descrs\[(\d+)\] (".*)$', l, re.S)
         if m:
             v, end = decode_dq('fish', m.group(2), 0)
             if m.group(2)[end:].strip():
